@@ -206,6 +206,10 @@ extern int mpt_graph_set(MPT_STRUCT(graph) *gr, const char *name, MPT_INTERFACE(
 		if (len > 0) {
 			return 0;
 		}
+		/* a number outside the value range is no letter sequence */
+		if (len == MPT_ERROR(BadValue)) {
+			return len;
+		}
 		if ((len = src->_vptr->convert(src, 's', &v)) < 0) {
 			return len;
 		}
@@ -239,6 +243,10 @@ extern int mpt_graph_set(MPT_STRUCT(graph) *gr, const char *name, MPT_INTERFACE(
 		}
 		if (len > 0) {
 			return 0;
+		}
+		/* a number outside the value range is no letter sequence */
+		if (len == MPT_ERROR(BadValue)) {
+			return len;
 		}
 		if ((len = src->_vptr->convert(src, 's', &v)) < 0) {
 			return len;
